@@ -12,7 +12,8 @@ INVARIANT Emit
 """
 
 
-def prepare(budget):
+def prepare(budget, always=lambda s: False):
+    """always: structures (rare kinds) that are kept whatever the budget"""
     def f(structs, seed):
         rng = random.Random(7 * seed + 1)
         idx = list(range(len(structs)))
@@ -23,6 +24,7 @@ def prepare(budget):
                 groups.setdefault(lossrec._key(s, drop=("twin", "call")), []).append(k)
             keys = sorted(groups)
             rng.shuffle(keys)
+            keys.sort(key=lambda g: not any(always(structs[k]) for k in groups[g]))     # stable: the rare kinds first
             idx = []
             for g in keys:
                 if len(idx) >= budget:
@@ -42,9 +44,9 @@ def sig(r):
     return out
 
 
-def prepare_filtered(spinn_terms, budget):
+def prepare_filtered(spinn_terms, budget, always=lambda s: False):
     """like prepare(), keeping from the separable-network family (C11L) only the given terms"""
-    inner = prepare(budget)
+    inner = prepare(budget, always)
 
     def f(structs, seed):
         keep = [s for s in structs if s.get("family") != "C11L" or s.get("term") in spinn_terms]
